@@ -102,7 +102,7 @@ theorem deg_last {it : BIter} {p : Pos} (h : Deg b it p) :
   rw [hstep]
   exact deg_prev (p := .eoi) ⟨h.riStart, h.riLimit, h.os, h.real, h.limit, h.err, Or.inr ⟨rfl, rfl⟩⟩
 
-theorem deg_seek (L : Layout b kvs off R rs) (hne : kvs ≠ []) (key : Bytes) {it : BIter} {p : Pos}
+theorem deg_seek (L : Layout b kvs off R rs) (key : Bytes) {it : BIter} {p : Pos}
     (h : Deg b it p) :
     Deg b (BIter.seek cmp b key it).2 (Cursor.seek ([] : List KV) (geK cmp key)) ∧
       (BIter.seek cmp b key it).1 = false := by
@@ -112,62 +112,61 @@ theorem deg_seek (L : Layout b kvs off R rs) (hne : kvs ≠ []) (key : Bytes) {i
     · exact Or.inl hd
     · exact Or.inr hd
   have hR := L.rpos
-  have hseekR : b.seekR cmp it.riStart it.riLimit key = some (R, R) := by
+  have hseekR : b.seekR cmp it.riStart it.riLimit key = some (R, b.restartsOffset) := by
     unfold BlockR.seekR
     rw [h.riStart, h.riLimit, L.rlen, Nat.sub_self]
     simp only [sortSearch, searchLoop, Nat.lt_irrefl, if_false, Nat.zero_add]
-    rw [if_pos (by omega), L.rcount]
-  have hmax : max it.offsetStart R = it.offsetLimit := by
+    rw [if_pos (by omega), if_pos (Nat.le_refl R)]
+  have hmax : max it.offsetStart b.restartsOffset = it.offsetLimit := by
     rw [h.os, h.limit]
-    have := restartsLen_le L hne
     omega
   have hstep : BIter.seek cmp b key it = BIter.seekLoop cmp b key (b.restartsOffset + 1)
-      { it with restartIndex := R, offset := max it.offsetStart R, dir := .forward } := by
+      { it with restartIndex := R, offset := max it.offsetStart b.restartsOffset, dir := .forward } := by
     unfold BIter.seek
     rw [if_neg (by rw [h.err]; simp), if_neg hnr, hseekR]
     simp only
     rw [if_pos hse]
-  have hnext : BIter.next b { it with restartIndex := R, offset := max it.offsetStart R, dir := .forward } =
-      (false, { it with restartIndex := R, offset := max it.offsetStart R, dir := .eoi }) := by
+  have hnext : BIter.next b { it with restartIndex := R, offset := max it.offsetStart b.restartsOffset, dir := .forward } =
+      (false, { it with restartIndex := R, offset := max it.offsetStart b.restartsOffset, dir := .eoi }) := by
     unfold BIter.next
     rw [if_neg (by show ¬ (BDir.forward = BDir.eoi ∨ it.err.isSome = true); rw [h.err]; simp),
       if_neg (by show ¬ (BDir.forward = BDir.released); simp),
       if_neg (by show ¬ (BDir.forward = BDir.soi); simp)]
-    have hdc : BIter.dropCache { it with restartIndex := R, offset := max it.offsetStart R, dir := .forward } =
-        { it with restartIndex := R, offset := max it.offsetStart R, dir := .forward } := by
+    have hdc : BIter.dropCache { it with restartIndex := R, offset := max it.offsetStart b.restartsOffset, dir := .forward } =
+        { it with restartIndex := R, offset := max it.offsetStart b.restartsOffset, dir := .forward } := by
       simp [BIter.dropCache]
-    have hle : it.offsetRealStart ≤ max it.offsetStart R := by rw [h.real, h.os]; omega
+    have hle : it.offsetRealStart ≤ max it.offsetStart b.restartsOffset := by rw [h.real, h.os]; omega
     rw [hdc, nextBody_deg hmax hle]
   rw [hstep, BIter.seekLoop, hnext]
   exact ⟨⟨h.riStart, h.riLimit, h.os, h.real, h.limit, h.err, Or.inr ⟨by simp [Cursor.seek], rfl⟩⟩, rfl⟩
 
-theorem deg_step (L : Layout b kvs off R rs) (hne : kvs ≠ []) (cl : Call Bytes) {it : BIter} {p : Pos}
+theorem deg_step (L : Layout b kvs off R rs) (cl : Call Bytes) {it : BIter} {p : Pos}
     (h : Deg b it p) :
     Deg b (BIter.step cmp b cl it).2 (Cursor.step ([] : List KV) (geK cmp) cl p) ∧
       (BIter.step cmp b cl it).1 = false := by
   cases cl with
   | first => exact deg_first h
   | last => exact deg_last h
-  | seek k => exact deg_seek L hne k h
+  | seek k => exact deg_seek L k h
   | next => exact deg_next h
   | prev => exact deg_prev h
 
-theorem deg_exec (L : Layout b kvs off R rs) (hne : kvs ≠ []) (cs : List (Call Bytes)) :
+theorem deg_exec (L : Layout b kvs off R rs) (cs : List (Call Bytes)) :
     ∀ {it : BIter} {p : Pos}, Deg b it p → (BIter.exec cmp b it cs).err = none := by
   induction cs with
   | nil => intro it p h; exact h.err
   | cons cl cs ih =>
     intro it p h
-    exact ih (deg_step L hne cl h).1
+    exact ih (deg_step L cl h).1
 
-theorem deg_run (L : Layout b kvs off R rs) (hne : kvs ≠ []) (cs : List (Call Bytes)) :
+theorem deg_run (L : Layout b kvs off R rs) (cs : List (Call Bytes)) :
     ∀ {it : BIter} {p : Pos}, Deg b it p →
     BIter.run cmp b it cs = (Cursor.run ([] : List KV) (geK cmp) p cs).map fun o => (o.isSome, o) := by
   induction cs with
   | nil => intro it p _; rfl
   | cons cl cs ih =>
     intro it p h
-    obtain ⟨h1, h2⟩ := deg_step (cmp := cmp) L hne cl h
+    obtain ⟨h1, h2⟩ := deg_step (cmp := cmp) L cl h
     have hcur : (BIter.step cmp b cl it).2.cur = none := by
       have hd : (BIter.step cmp b cl it).2.dir = .soi ∨ (BIter.step cmp b cl it).2.dir = .eoi := by
         rcases h1.dir with ⟨_, hd⟩ | ⟨_, hd⟩
